@@ -482,6 +482,11 @@ def main():
         if not unmatched:
             r["outcome"] = "known-finding-only"
             continue
+        if os.environ.get("VERIF_NO_REPLAY"):
+            for fc in unmatched[:6]:
+                say(f"    [dev, no replay] {r['name']} failed check: {fc['desc']} @ {fc['loc'][-80:]}")
+            inconclusive.append((r, "failed; replay disabled by VERIF_NO_REPLAY (development only)"))
+            continue
         # replay the unlisted failure on the real crate
         say(f"  replaying {r['name']} on the real crate ...")
         pr = run_harness(h, args.tier, playback=True)
